@@ -197,6 +197,8 @@ def dump(src, filt, std="gnu++17", defines=(), extra=()):
         # recover it from the source text
         import re as _re
         for n in d.walk():
+            if n.get("kind") == "DependentScopeDeclRefExpr" and "name" not in n:
+                n["name"] = _re.sub(r"\s+", "", d.text(n))
             if n.get("kind") == "UnresolvedMemberExpr" and "member" not in n:
                 txt = d.text(n)
                 m = _re.search(r"([A-Za-z_]\w*)\s*(<[^()]*>)?\s*$", txt.split("(")[0])
